@@ -28,6 +28,7 @@ import http.client
 import io
 import json
 import random
+import re
 import time
 from urllib.error import HTTPError, URLError
 from urllib.parse import quote, unquote, urlsplit
@@ -49,6 +50,7 @@ KINDS_WRONGTYPE = ("wrongtype_list", "wrongtype_null", "wrongtype_str", "wrongty
 KINDS_EXTRA = ("nonjson_nonutf8", "raise_timeout", "raise_disconnect", "read_incomplete", "read_timeout")
 ALL_KINDS = KINDS_CORE + KINDS_WRONGTYPE + KINDS_EXTRA
 
+_BAD_URL_CHAR = re.compile(r"[\x00-\x20\x7f]|[^\x00-\x7f]")
 _HTTP_MSG = {400: "Bad Request", 401: "Unauthorized", 403: "Forbidden", 404: "Not Found", 429: "Too Many Requests",
              500: "Internal Server Error", 503: "Service Unavailable", 405: "Method Not Allowed"}
 _GRAPH_CODE = {400: "invalidRequest", 401: "InvalidAuthenticationToken", 403: "accessDenied", 404: "itemNotFound",
@@ -326,11 +328,18 @@ class SimResponse:
         self.idx, self.url, self.status, self._body = idx, url, status, body
         self.code = status
         self.reason = self.msg = _HTTP_MSG.get(status, "OK")
-        self.headers = _headers([("Content-Type", content_type), ("Content-Length", str(len(body))), ("request-id", f"sim-{idx}")])
+        self._ctype = content_type
+        self._headers = None
         self.version = 11
         self._pos = 0
         self._read_raises = read_raises
         self.reads = self.closes = self.enters = self.exits = self.reads_after_close = 0
+
+    @property
+    def headers(self):
+        if self._headers is None:
+            self._headers = _headers([("Content-Type", self._ctype), ("Content-Length", str(len(self._body))), ("request-id", f"sim-{self.idx}")])
+        return self._headers
 
     # -- accounting
     @property
@@ -465,13 +474,13 @@ class GraphSim:
         entry = {"i": idx, "method": method, "url": url, "label": "?"}
         self.log.append(entry)
         # what http.client does to a URL that was not quoted
-        for ch in url:
+        m = _BAD_URL_CHAR.search(url)
+        if m is not None:
+            entry["label"] = "invalid-url"
+            ch = m.group()
             if ord(ch) <= 0x20 or ord(ch) == 0x7F:
-                entry["label"] = "invalid-url"
                 raise http.client.InvalidURL(f"URL can't contain control characters. {url!r} (found at least {ch!r})")
-            if ord(ch) > 0x7F:
-                entry["label"] = "invalid-url"
-                raise UnicodeEncodeError("ascii", url, url.index(ch), url.index(ch) + 1, "ordinal not in range(128)")
+            raise UnicodeEncodeError("ascii", url, m.start(), m.start() + 1, "ordinal not in range(128)")
         status, payload, label, ctype = self._route(method, url, headers, body)
         entry["label"] = label
         f = self.fault
